@@ -80,8 +80,16 @@ func genNeutralPath(t *rapid.T, label string, hostile bool) string {
 		}
 		p += "/" + w
 	}
+	if hostile && chance(t, label+"tail", 4) {
+		// a hostile byte as the very last (or, after the slash, first) byte of the value
+		p += pick(t, label+"tailb", []string{"\\", "'", "#", "=", ",", " ", "é", "/'x'", "\\\\"})
+	}
 	return p
 }
+
+// generalisable values: the documented path generalisation would rewrite them in profile, name and
+// target; in every other field they must be reported as they are.
+var generalisable = []string{"/usr/bin/pulseaudio", "/home/alice/.config/x", "/run/user/1000/bus", "/proc/1234/stat", "/usr/lib/x86_64-linux-gnu/foo", "1000", "1234567", "/tmp/x", "/var/tmp/q", "/usr/libexec/q"}
 
 func genLogRecord(t *rapid.T, idx int) (LogRecord, map[string]string) {
 	var r LogRecord
@@ -126,6 +134,9 @@ func genLogRecord(t *rapid.T, idx int) (LogRecord, map[string]string) {
 	if hostile && chance(t, "commhost", 3) {
 		comm += pick(t, "commhb", []string{" ", "é", "#", "="}) + "w"
 	}
+	if hostile && chance(t, "commedge", 4) {
+		comm = pick(t, "commlead", []string{"'", "\\", "#", "="}) + comm + pick(t, "commtail", []string{"'", "\\", "#", "", "="})
+	}
 	fs = append(fs, fld{"comm", comm, enc(comm)})
 	fs = append(fs, fld{"pid", fmt.Sprint(rapid.IntRange(1, 99999).Draw(t, "pid")), "bare"})
 	if chance(t, "masks", 2) {
@@ -136,7 +147,7 @@ func genLogRecord(t *rapid.T, idx int) (LogRecord, map[string]string) {
 		fs = append(fs, fld{"fsuid", pick(t, "fsuid", []string{"0", "1001", "500"}), "bare"}, fld{"ouid", pick(t, "ouid", []string{"0", "1001", "500"}), "bare"})
 	}
 	if chance(t, "info", 3) {
-		fs = append(fs, fld{"info", pick(t, "infov", []string{"Failed name lookup - disconnected path", "no new privs", "a = b", "x # y", "optional: foo", "two  spaces   here"}), "quoted"})
+		fs = append(fs, fld{"info", pick(t, "infov", []string{"Failed name lookup - disconnected path", "no new privs", "a = b", "x # y", "optional: foo", "two  spaces   here", "'quoted' text'", "see /home/alice/x", "ends with \\", "uid 1000"}), "quoted"})
 		fs = append(fs, fld{"error", "-13", "bare"})
 	}
 	if chance(t, "target", 4) {
@@ -149,6 +160,9 @@ func genLogRecord(t *rapid.T, idx int) (LogRecord, map[string]string) {
 			fs = append(fs, fld{"hostname", pick(t, "hostv", []string{"?", "DEADBEEF", "ABC123", "host-q", "DESKTOP-1", "C3PO", "fedora"}), "bare"})
 		case "srcname":
 			v := genNeutralPath(t, "src", hostile)
+			if chance(t, "srcgen", 3) {
+				v = pick(t, "srcgenv", generalisable)
+			}
 			fs = append(fs, fld{"srcname", v, enc(v)})
 		case "peer_profile":
 			fs = append(fs, fld{"peer_profile", pick(t, "ppv", []string{"ABCD", "foo", "CAFE//bar"}), "bare"})
@@ -157,7 +171,11 @@ func genLogRecord(t *rapid.T, idx int) (LogRecord, map[string]string) {
 		}
 	}
 	if chance(t, "extra", 3) {
-		fs = append(fs, fld{"peer", pick(t, "peerv", []string{"unconfined", "foo//bar", "a b"}), "quoted"})
+		pv := pick(t, "peerv", append([]string{"unconfined", "foo//bar", "a b", "it's", "'q'"}, generalisable...))
+		fs = append(fs, fld{pick(t, "peerkey", []string{"peer", "peer", "peer_label"}), pv, "quoted"})
+		if chance(t, "label", 3) {
+			fs = append(fs, fld{"label", pick(t, "labelv", append([]string{"foo", "unconfined"}, generalisable...)), "quoted"})
+		}
 		fs = append(fs, fld{"addr", pick(t, "addrv", []string{"none", "@/tmp/q r", "@2F746D702F71"}), "quoted"})
 	}
 	order := rapid.Permutation(intRange(len(fs))).Draw(t, "order")
